@@ -236,6 +236,16 @@ func (sc *c14Scenario) Run(s *simrt.Sim) {
 					}
 				} else {
 					io := fpgo.MonadIOJustGenerics[int](x)
+					if (ci+si)%3 != 0 {
+						// the IO is one of two compositions derived from a common origin chain; the other one, derived
+						// later, computes something else
+						origin := io
+						for k := 0; k < []int{3, 5, 6, 7, 2, 4}[(ci*7+si)%6]; k++ {
+							origin = origin.FlatMap(func(v int) *fpgo.MonadIODef[int] { return fpgo.MonadIOJustGenerics(v) })
+						}
+						io = origin.FlatMap(func(v int) *fpgo.MonadIODef[int] { return fpgo.MonadIOJustGenerics(v) })
+						_ = origin.FlatMap(func(v int) *fpgo.MonadIODef[int] { return fpgo.MonadIOJustGenerics(v + 500000) })
+					}
 					if hd != nil {
 						io = io.ObserveOn(hd)
 					}
